@@ -24,6 +24,7 @@ fn file_text(f: &Value) -> Result<String> {
 }
 
 pub fn exec(v: &Value) -> Result<Value> {
+	if matches!(v["op"].as_str(), Some("walk" | "edge" | "root" | "ids")) { return super::prop::exec(v); }
 	static CTR: std::sync::atomic::AtomicUsize = std::sync::atomic::AtomicUsize::new(0);
 	let n = CTR.fetch_add(1, std::sync::atomic::Ordering::Relaxed);
 	let dir = PathBuf::from(format!("/dev/shm/verif-work/tmp/vg-{}-{}", std::process::id(), n));
@@ -130,5 +131,7 @@ pub fn gen(seed: u64, n: usize) -> Result<Vec<Value>> {
 		lookups.push(names[0].clone());
 		out.push(json!({"op": "graph", "files": files, "lookups": lookups}));
 	}
+	// the walk of a change through the graph (src/insert_mappings.rs, specification Propagate.tla)
+	out.extend(super::prop::gen(seed, n)?);
 	Ok(out)
 }
